@@ -702,6 +702,29 @@ func VH_C14_Grammar_AnonTwins() {
 	vReach("grammar")
 }
 
+// ---------- production types whose names start with a non-ASCII letter ----------
+
+type élément struct {
+	V string `@A`
+}
+type ähnlich struct {
+	E *élément `@@`
+	W string   `@"w"?`
+}
+type vgNonASCIITypes struct {
+	First *élément   `@@`
+	Rest  []*ähnlich `@@*`
+}
+
+func VH_C14_Grammar_NonASCIITypes() {
+	p, err := participle.Build[vgNonASCIITypes](participle.Lexer(vhLexDef))
+	vAssert(err == nil, "catalogue grammar must build")
+	ast := vhGrammarRoundTrip(p.String(), "VgNonASCIITypes")
+	vAssert(len(ast.Productions) == 3, "C14: a production of the grammar is missing from the EBNF or defined twice")
+	vObserve("ebnf", p.String())
+	vReach("grammar")
+}
+
 // ---------- productions referenced only from inside lookahead groups ----------
 
 type vgKwNeg struct {
